@@ -197,6 +197,12 @@ def _install_mean_hook(sym, c, fn, r, rank):
             cx = strip(body["c"])
             body = {"k": "match", "scrut": cx["init"], "arms": [{"pat": cx["pat"], "guard": None, "body": body["th"]},
                                                                 {"pat": {"k": "wild"}, "guard": None, "body": body["el"]}]}
+        tail_expr = None
+        if body.get("k") == "blk" and len(body["b"]["stmts"]) == 1 and body["b"]["tail"] is not None and body["b"]["stmts"][0].get("k") == "let" \
+                and body["b"]["stmts"][0]["pat"].get("k") == "bind" and body["b"]["stmts"][0].get("init") is not None and strip(body["b"]["stmts"][0]["init"]).get("k") == "match":
+            # `let d = match &t.data { Data::<rank>(d) => d, _ => panic }; d[i]..`  (also what `let Data::<rank>(d) = &t.data else { panic }` desugars to)
+            tail_expr = (body["b"]["stmts"][0]["pat"]["hid"], strip(body["b"]["tail"]))
+            body = strip(body["b"]["stmts"][0]["init"])
         if body.get("k") != "match":
             raise ValueError("mean: closure is not a match on the other tensor's data")
         live = [a for a in body["arms"] if e4.outcomes(c, a["body"], lambda x: False)]
@@ -206,12 +212,17 @@ def _install_mean_hook(sym, c, fn, r, rank):
         if vp != "tensor::Data::" + rank or len(binds) != 1:
             raise ValueError("mean: inner arm is %s inside a %s arm" % (vp, rank))
         e = strip(live[0]["body"])
+        root_hid = binds[0][1]
+        if tail_expr is not None:
+            if e4.local_hid(e) != binds[0][1]:
+                raise ValueError("mean: the let-bound data is not the matched payload")
+            root_hid, e = tail_expr
         idx = []
         while e.get("k") == "index":
             idx.append(strip(e["i"]))
             e = strip(e["b"])
         idx.reverse()
-        if e4.local_hid(e) != binds[0][1] or len(idx) != depth:
+        if e4.local_hid(e) != root_hid or len(idx) != depth:
             raise ValueError("mean: element is not d[i][j]..")
         for lvl, i in enumerate(idx):
             if not (i.get("k") == "local" and cn_env.get(i["hid"]) == ("idx", lvl)):
@@ -344,41 +355,55 @@ def linear_algebra(ctx):
         okshape = bool(sh) and len(sh) == 1 and e6.is_call(sh[0], "len", 1) is not None and e6.is_call(sh[0], "len", 1)[0] in (X, M)
     ctx.check("R15.3", "dot", ok, "dot-form-not-sum_j-M_ij*x_j", where, detail, "could not establish dot_i = sum_j M_ij*x_j " + detail)
     ctx.check("R15.3", "dot-shape", okshape, "dot-shape", where, "shape = Single(number of rows)")
-    # ---- transpose: t[j][i] = d[i][j] for every i < rows, j < cols; t allocated cols x rows (index or enumerate loops)
-    from ..hir import matchified
-    fn = matchified(ctx.fn(T + "transpose"))
+    # ---- transpose on the E6 summary: one result path (data is Double = D); the result is Tensor{Double(len(t), len(t[0])), Double(t)} with
+    #      t allocated as len(D[0]) x len(D) zeros and filled by a walk over every row i of D and every position j of that row: t[j][i] = D[i][j]
+    fn = ctx.fn(T + "transpose")
     where = c.loc(fn)
-    from .common import index_copy
-    ok, detail, okal = False, "", False
-    darm = [a for x in walk(fn["body"]) if x.get("k") == "match" for a in x["arms"] if e4.arm_variant(a)[0] == "tensor::Data::Double"]
-    if len(darm) == 1 and e4.arm_variant(darm[0])[1]:
-        dn, dh = e4.arm_variant(darm[0])[1][0]
-        ic = index_copy(c, fn, darm[0]["body"], dn, {"%s.len()" % dn: "R", "%s[0].len()" % dn: "C"})
-        if ic is not None and len(ic["target"]) == 2 and len(ic["source"]) == 2 and None not in ic["target"]:
-            a_, b_ = ic["target"]
-            # roles: a ranges over the columns of d, b over its rows (a range loop says so itself; an enumerate counter by what it counts)
-            def role(h):
-                if ic["roles"].get(h):
-                    return ic["roles"][h]
-                src = ic["counters"].get(h)
-                if src is None:
-                    return None
-                if e4.local_hid(src) == dh:
-                    return "R"
-                s0 = strip(src)
-                if s0.get("k") == "index" and e4.local_hid(s0["b"]) == dh:
-                    return "C"
-                if s0.get("k") == "local":      # the row bound by the outer enumerate
-                    return "C"
-                return None
-            ok = (a_ != b_ and ic["source"] == [b_, a_] and e4.local_hid(ic["src_root"]) == dh and role(a_) == "C" and role(b_) == "R")
-            detail = "target[%s][%s] = source[%s][%s]" % (role(a_), role(b_), role(ic["source"][0]), role(ic["source"][1]))
-            okal = ic["alloc"] == ["C", "R"]
+    E = e6.Exec(c, fn)
+    live = [p for p in E.run_fn() if p.exit is None or p.exit[0] == "return"]
+    ok, detail, okal, oksh = False, "", False, False
+    DATA = ("field", ("p", "self"), "data")
+    if len(live) == 1 and e6.variant_of(live[0]).get(DATA) == "tensor::Data::Double" and len(live[0].pc) == 1:
+        P = live[0]
+        D = ("payload", DATA, "tensor::Data::Double", 0)
+        val = P.val if P.exit is None else P.exit[1]
+        f = dict(val[2]) if isinstance(val, tuple) and val and val[0] == "struct" and val[1].endswith("tensor::Tensor") else {}
+        dd = ctor_arg(f.get("data"), "Data::Double")
+        TR = dd[0] if dd else None
+        shp = ctor_arg(f.get("shape"), "Shape::Double")
+        LENF = lambda x: ("call", "std::vec::Vec::<T, A>::len", (x,))
+        if TR is not None and shp and len(shp) == 2:
+            oksh = e6.strip_upd(shp[0]) == LENF(e6.strip_upd(TR)) and e6.strip_upd(shp[1]) == LENF(("idx", e6.strip_upd(TR), ("lit", "0")))
+        if isinstance(TR, tuple) and len(TR) == 4 and TR[0] == "loopout":
+            name, l1, entry = TR[1], TR[2], TR[3]
+            cn = e6.const_nest(E, entry)
+            okal = cn is not None and [e6.lin(e6.strip_upd(x)) for x in cn[0]] == [e6.lin(LENF(("idx", D, ("lit", "0")))), e6.lin(LENF(D))] and cn[1] in (("lit", "0.0"), ("lit", "0.0f32"), ("lit", "0."))
+            S1 = E.loop_summaries.get(l1)
+            tops = [e for e in P.eff if not (e[0] == "loop" and (e[1] == l1 or all(not x[1] for x in e[3])))]     # (effect-free closures only compute values)
+            sw1 = e6.seq_walk(S1["iter"], l1, D) if S1 and S1.get("kind") == "for" else None
+            if sw1 and sw1["fwd"] and len(S1["paths"]) == 1 and not S1["paths"][0].pc and S1["paths"][0].exit is None and not tops:
+                e1_ = S1["paths"][0].eff
+                pos1 = sw1["pos"]["fwd"]
+                if len(e1_) == 1 and e1_[0][0] == "loop" and pos1 is not None:
+                    l2 = e1_[0][1]
+                    it2 = e1_[0][2]
+                    q2 = [e6.Path({}, pc=x[0], eff=x[1], exit=x[2], val=x[3]) for x in e1_[0][3]]
+                    el1 = ("elem", S1["iter"], l1)
+                    rows = [("proj", el1, 1), el1, ("idx", D, el1), ("idx", D, ("proj", el1, 0))]
+                    sw2 = None
+                    for r_ in rows:
+                        if sw1["fwd"](r_):
+                            sw2 = e6.seq_walk(it2, l2, r_) or sw2
+                    if sw2 and sw2["fwd"] and sw2["pos"]["fwd"] is not None and len(q2) == 1 and not q2[0].pc and q2[0].exit is None and len(q2[0].eff) == 1 and q2[0].eff[0][0] == "set":
+                        st = q2[0].eff[0]
+                        pl, v = st[1], st[2]
+                        okp = (isinstance(pl, tuple) and pl[0] == "idx" and isinstance(pl[1], tuple) and pl[1][0] == "idx" and pl[1][1] == ("local", name)
+                               and e6.lin(e6.strip_upd(pl[1][2])) == sw2["pos"]["fwd"] and e6.lin(e6.strip_upd(pl[2])) == pos1)
+                        ok = okp and sw2["fwd"](v)
+                        detail = "%s = %s" % (e6.show(pl, 3)[:80], e6.show(v, 3)[:60])
     ctx.check("R15.3", "transpose", ok, "transpose-form-not-t[j][i]=d[i][j]", where, detail, "could not establish transposed[j][i] = d[i][j]: " + detail)
     ctx.check("R15.3", "transpose-alloc", okal, "transpose-allocation", where, "vec![vec![0.0; rows]; cols]")
-    lit = [x for x in walk(fn["body"]) if x.get("k") == "struct" and x["path"].endswith("tensor::Tensor")]
-    sh = pretty(dict((a, e) for a, e in lit[0]["fs"])["shape"]) if lit else ""
-    ctx.check("R15.3", "transpose-shape", sh == "tensor::Shape::Double(transposed.len(), transposed[0].len())", "transpose-shape:" + sh, where, sh)
+    ctx.check("R15.3", "transpose-shape", oksh, "transpose-shape:shape", where, "Shape::Double(transposed.len(), transposed[0].len())")
 
 
 def hadamard3d(ctx):
